@@ -658,7 +658,7 @@ macro_rules! impl_const_elem_matrix {
         let mut cursor = Cursor::new(bytes);
         let rows = cursor.read_u32::<LittleEndian>().unwrap() as usize;
         let cols = cursor.read_u32::<LittleEndian>().unwrap() as usize;
-        let mut elements: Vec<T> = Vec::with_capacity(rows * cols);
+        let mut elements: Vec<T> = Vec::with_capacity(rows.saturating_mul(cols).min(bytes.len())); // the data cannot hold more
 
         // Read in column-major order
         for _c in 0..cols {
@@ -698,7 +698,7 @@ where
     let mut cursor = Cursor::new(bytes);
     let rows = cursor.read_u32::<LittleEndian>().unwrap() as usize;
     let cols = cursor.read_u32::<LittleEndian>().unwrap() as usize;
-    let mut elements = Vec::with_capacity(rows * cols);
+    let mut elements = Vec::with_capacity(rows.saturating_mul(cols).min(bytes.len())); // the data cannot hold more
     // Read in column-major order
     for _c in 0..cols {
       for _r in 0..rows {
@@ -733,7 +733,7 @@ where
     let mut cursor = Cursor::new(bytes);
     let rows = cursor.read_u32::<LittleEndian>().unwrap() as usize;
     let cols = cursor.read_u32::<LittleEndian>().unwrap() as usize;
-    let mut elements = Vec::with_capacity(rows * cols);
+    let mut elements = Vec::with_capacity(rows.saturating_mul(cols).min(bytes.len())); // the data cannot hold more
     // Read in column-major order
     for _c in 0..cols {
       for _r in 0..rows {
@@ -768,7 +768,7 @@ where
     let mut cursor = Cursor::new(bytes);
     let rows = cursor.read_u32::<LittleEndian>().unwrap() as usize;
     let cols = cursor.read_u32::<LittleEndian>().unwrap() as usize;
-    let mut elements = Vec::with_capacity(rows * cols);
+    let mut elements = Vec::with_capacity(rows.saturating_mul(cols).min(bytes.len())); // the data cannot hold more
     // Read in column-major order
     for _c in 0..cols {
       for _r in 0..rows {
@@ -853,7 +853,7 @@ where
     let mut cursor = Cursor::new(bytes);
     let rows = cursor.read_u32::<LittleEndian>().unwrap() as usize;
     let cols = cursor.read_u32::<LittleEndian>().unwrap() as usize;
-    let mut elements = Vec::with_capacity(rows * cols);
+    let mut elements = Vec::with_capacity(rows.saturating_mul(cols).min(bytes.len())); // the data cannot hold more
     // Read in column-major order
     for _c in 0..cols {
       for _r in 0..rows {
@@ -1156,7 +1156,7 @@ impl ConstElem for ValueKind {
         let elem_vk = ValueKind::from_le(&bytes[cursor.position() as usize..]);
         cursor.set_position(cursor.position() + 1); // advance past elem_vk tag
         let dim_count = cursor.read_u32::<LittleEndian>().expect("read matrix dim count") as usize;
-        let mut dims = Vec::with_capacity(dim_count);
+        let mut dims = Vec::with_capacity(dim_count.min(bytes.len()));
         for _ in 0..dim_count {
             dims.push(cursor.read_u32::<LittleEndian>().expect("read matrix dim") as usize);
         }
@@ -1171,7 +1171,7 @@ impl ConstElem for ValueKind {
       #[cfg(feature = "table")]
       26 => {
         let field_count = cursor.read_u32::<LittleEndian>().expect("read table fields length") as usize;
-        let mut fields = Vec::with_capacity(field_count);
+        let mut fields = Vec::with_capacity(field_count.min(bytes.len()));
         for _ in 0..field_count {
           let name = String::from_le(&bytes[cursor.position() as usize..]);
           let mut buf = Vec::new();
@@ -1372,7 +1372,7 @@ impl ConstElem for MechSet {
       .read_u32::<LittleEndian>()
       .expect("read set element count") as usize;
     // 3) read each Value (advance cursor using each value's encoded length)
-    let mut set = IndexSet::with_capacity(num_elements);
+    let mut set = IndexSet::with_capacity(num_elements.min(data.len()));
     for _ in 0..num_elements {
       let pos = cursor.position() as usize;
       let value = Value::from_le(&data[pos..]);
@@ -1412,7 +1412,7 @@ impl ConstElem for MechTuple {
       .read_u32::<LittleEndian>()
       .expect("read tuple element count") as usize;
     // 3) Read each element
-    let mut elements: Vec<Box<Value>> = Vec::with_capacity(num_elements);
+    let mut elements: Vec<Box<Value>> = Vec::with_capacity(num_elements.min(data.len()));
     for _ in 0..num_elements {
       let pos = cursor.position() as usize;
       let value = Value::from_le(&data[pos..]);
